@@ -74,6 +74,15 @@ fn binary(p: &Params) {
         let want = if probs[i] >= 0.5 { pos } else { neg };
         check_bool("binary.predicted class is the one probability and threshold imply", pred[i].resolve(n_labels) == want);
     }
+    // the decision threshold is configurable: the predicted class must follow it
+    for &t in &[0.25f64, 0.75, 0.1, 0.9] {
+        let mt = m.clone().set_threshold(t);
+        let pr: Array1<SymLabel> = mt.predict(&x);
+        for i in 0..n {
+            let want = if probs[i] >= t { pos } else { neg };
+            check_bool("binary.predicted class follows a non-default threshold", pr[i].resolve(n_labels) == want);
+        }
+    }
     // stationarity of the documented objective  sum_i log(1+exp(-t_i z_i)) + alpha/2 |w|^2  (no penalty on b)
     let (w, b) = (m.params().clone(), m.intercept());
     let mut gw = vec![0.0; x.ncols()];
